@@ -102,7 +102,7 @@ def check_zero_tests(rep, g, ev, label):
                     if (cn.frame.id, cn.bb) in polls:
                         kills.add(('NZ', cn.frame.id, cn.bb))
             de = ev.switch_expr(n)
-            zt = common.zero_test(de)
+            zt = common.zero_test(de, n.term.get("dty"))
             if zt is not None:
                 v, c0, other = zt
                 for (fid, bb) in polls:
@@ -175,7 +175,7 @@ def check_zero_tests(rep, g, ev, label):
                 # debug assertion on the same variable): not the EOF / WriteZero test
                 continue
             de = ev.switch_expr(sn)
-            v, c0, other = common.zero_test(de)
+            v, c0, other = common.zero_test(de, sn.term.get("dty"))
             for (m, lab) in g.succ[k]:
                 if ev.edge_value(lab, c0, other) != 'zero':
                     continue
